@@ -112,11 +112,14 @@ void hazard_eras<Traits>::guard_ptr<T, MarkedPtr>::acquire(const concurrent_ptr<
         prev_era = era;
         continue;
       }
-      he->release_guard();
-      he = nullptr;
     }
-    assert(he == nullptr);
-    he = local_thread_data().alloc_hazard_era(era);
+    // allocate the new hazard era before giving up the shared one - alloc_hazard_era can throw,
+    // and in that case this guard must still be counted by the hazard era it refers to.
+    auto new_he = local_thread_data().alloc_hazard_era(era);
+    if (he != nullptr) {
+      he->release_guard();
+    }
+    he = new_he;
     prev_era = era;
   }
 }
@@ -145,11 +148,13 @@ bool hazard_eras<Traits>::guard_ptr<T, MarkedPtr>::acquire_if_equal(const concur
   if (he != nullptr && he->guards() == 1) {
     he->set_era(era);
   } else {
+    // allocate the new hazard era before giving up the shared one - alloc_hazard_era can throw,
+    // and in that case this guard must still be counted by the hazard era it refers to.
+    auto new_he = local_thread_data().alloc_hazard_era(era);
     if (he != nullptr) {
       he->release_guard();
     }
-
-    he = local_thread_data().alloc_hazard_era(era);
+    he = new_he;
   }
 
   this->ptr = p.load(std::memory_order_relaxed);
